@@ -426,7 +426,8 @@ GRIDW = ['Environments.discrete_grid_pos_to_id', 'Environments.DiscreteWorld.__i
 DEPS = {
     # collectors are systems: their constructors must hand the declared window on to System.__init__; "exactly once" must
     # survive systems that edit the system set mid-timestep (the general user-code view)
-    'C01': ['Core.System.clean_up'],
+    # the order must also hold when systems edit the system set mid-timestep (dynamic view)
+    'C01': ['Core.System.clean_up', 'Core.SystemManager.execute_systems#dynamic'],
     'C02': SCHED + ['Core.Environment.__init__', 'Collectors.Collector.__init__', 'Collectors.AgentCollector.__init__',
                     'Collectors.FileCollector.__init__', 'Core.SystemManager.execute_systems#dynamic'],
     'C04': ['Core.SystemManager.register_component', 'Core.SystemManager.deregister_component',
@@ -443,7 +444,8 @@ DEPS = {
     'C13': ENVW,
     'C15': ['Core.Model.execute', 'Core.SystemManager.execute_systems', 'Core.SystemManager.__getitem__',
             'Batching.ParameterList.build', 'Batching._build_model_from_kwargs#impl'],
-    'C16': ['Batching.ParameterList.build', 'Batching._build_model_from_kwargs#impl'],
+    'C16': ['Batching.ParameterList.build', 'Batching._build_model_from_kwargs#impl', 'Batching._run_model_for_search#body',
+            'Core.Model.execute', 'Core.SystemManager.execute_systems'],
     # collectors observe the state left by the timestep's systems: that is the scheduler's order (C01) and, for systems
     # that edit the system set, its dynamic view (C05)
     'C17': SCHED + ['Core.SystemManager.execute_systems', 'Core.SystemManager.execute_systems#dynamic'],
